@@ -1,9 +1,9 @@
 (* C13 — property theorems only: each closed by [exact], each followed by Print Assumptions.
    FR f = the real value of the float64 f, Ffin f = f is finite, RN = rounding to nearest even in
    binary64 (FloatKit.v); S0 V2 S1 S2 MX = the exact integer sums of Model.v. *)
-From Coq Require Import ZArith Reals Floats List QArith.
+From Coq Require Import ZArith Reals Floats List QArith Permutation.
 From Flocq Require Import Core.
-From Dastard Require Import Common.ZX C13.Model C13.ModelFloat C13.Spec C13.FloatKit C13.Proofs C13.ProofsQ C13.Bridge C13.Meets C13.Rms C13.Tree.
+From Dastard Require Import Common.ZX C13.Model C13.ModelFloat C13.Spec C13.FloatKit C13.Proofs C13.ProofsQ C13.Bridge C13.Meets C13.Rms C13.Tree C13.Dyadic.
 
 (* No rounding occurs in the two accumulation loops of AnalyzeData: the float accumulators hold the
    exact integer (half-integer for the slope accumulator) sums. *)
@@ -129,3 +129,18 @@ Example tree_hypothesis_is_satisfiable :
   let t := Node (Leaf 3 (/ 7)) (Node (Leaf (-5) 11) (Leaf (bpow radix2 (-40)) 65535)) in
   (INR (leaves t) * bpow radix2 (-53) <= / 2)%R.
 Proof. exact tree_example. Qed.
+
+(* The checker's test of one model coefficient (Spec.chk_coefs applies coef_row_ok to every projector
+   row with exactly these arguments) accepts the float result of EVERY summation-tree evaluation of that
+   row: t ranges over all trees whose leaves are the products P_ij * d_j of the row in any order; c is
+   the reported coefficient read as a dyadic number (dyR c = its real value); the reference values are
+   the checker's exact dyadic dot products. *)
+Theorem coefficient_check_accepts_any_summation_tree :
+  forall (row : list dy) (d : list Z) (t : tree) (c : dy),
+    length row = length d -> (1 <= length d)%nat -> (zlen d < 2 ^ 52)%Z ->
+    Permutation (leaf_list t) (pairsR row d) ->
+    dyR c = evalf t ->
+    coef_row_ok (zlen d) c (dy_dot row (map dy_of_Z d))
+                (dy_dot (map dy_abs row) (map (fun x => dy_of_Z (Z.abs x)) d)) = true.
+Proof. exact coef_check_accepts_any_tree. Qed.
+Print Assumptions coefficient_check_accepts_any_summation_tree.
